@@ -13,6 +13,7 @@ REGISTRY = {
     "C19": "treemerge",
     "C20": "serialize",
     "C01": "objectstore",
+    "C03": "treecanon",
     "C04": "objectstore",
     "C06": "objectstore",
     "C07": "objectstore",
